@@ -131,6 +131,8 @@ def plan(tier):
     per = 70 if tier == "quick" else 700
     for i in range(n):
         jobs.append({"part": "random", "op": "read" if i % 2 else "write", "examples": per})
+    for i in range(6):
+        jobs.append({"part": "random", "op": "read" if i % 2 else "write", "packing": True, "examples": per // 3})
     return jobs
 
 
@@ -156,8 +158,8 @@ def run_job(ctx, job):
         nt = any(abs(p.tag_size(t) - c_) <= 48 or p.tag_size(t) > c_ for t in case["pd"]["tags"] for c_ in (conn,))
         return discs, nt, ["random"] + sorted(run.classes)
 
-    hyp_search(ctx, "case", c01.cases(job["op"], many=True, size_bias=["window", "window", "huge", "medium", "small", "scalar"]), check_case,
-               job["examples"], sample_of=c01.sample_of)
+    hyp_search(ctx, "case", c01.cases(job["op"], many=True, size_bias=["window", "window", "huge", "medium", "small", "scalar"], packing=job.get("packing", False)),
+               check_case, job["examples"], sample_of=c01.sample_of)
 
 
 def replay(ctx, kind, case):
